@@ -353,6 +353,7 @@ class Configuration(_Configuration):
 
         self._neighbors: dict[str, Any] = {}
         self._previous_neighbors: dict[str, Any] = {}
+        self._previous_processes: dict[str, Any] = {}
 
     @classmethod
     def from_settings(cls, settings: 'ConfigurationSettings') -> 'Configuration':
@@ -485,6 +486,7 @@ class Configuration(_Configuration):
         return self.parser.tokeniser
 
     def _clear(self) -> None:
+        self._previous_processes = self.processes
         self.processes = {}
         self._previous_neighbors = self.neighbors
         self.neighbors = {}
@@ -523,7 +525,9 @@ class Configuration(_Configuration):
 
     def _rollback_reload(self) -> None:
         self.neighbors = self._previous_neighbors
-        self.processes = self.process.processes
+        # what the parser had read before the error is not a configuration: the main loop
+        # terminates every API process which is not in this table
+        self.processes = self._previous_processes
         self._neighbors = {}
         self._previous_neighbors = {}
 
